@@ -48,6 +48,9 @@ type pview struct {
 	byID  map[Hash]*pent
 	spent map[OP][]*pent // pooled spenders of an outpoint (distinct txs)
 	utxo  refchain.UTXO
+	// something only the dry-run block can judge (e.g. a pooled tx without outputs) is present:
+	// the caller upgrades a cheap walk to a full one
+	suspect bool
 }
 
 // finding: class = head [/fam:<generator family of the first tx>] [/detail]
@@ -197,6 +200,9 @@ func (h *hist) walk(full bool) (*pview, []finding) {
 		}
 		if !okParsed {
 			add("parsed-fields-mismatch", fmt.Sprintf("pooled tx %s: parsed inputs/outputs differ from the reference decoding of its raw bytes", e.id), e)
+		}
+		if len(rt.Out) == 0 {
+			v.suspect = true
 		}
 		seen := map[OP]bool{}
 		for _, in := range rt.In {
